@@ -11,6 +11,7 @@ package main
 
 import (
 	"context"
+	"errors"
 	"encoding/json"
 	"fmt"
 	"os"
@@ -22,6 +23,8 @@ import (
 
 	"github.com/google/go-github/v71/github"
 
+	"github.com/cloudflare/pint/internal/checks"
+	"github.com/cloudflare/pint/internal/discovery"
 	"github.com/cloudflare/pint/internal/reporter"
 	"github.com/cloudflare/pint/verifharness/pipe"
 )
@@ -42,9 +45,14 @@ type c17Var struct {
 	Shift int    `json:"shift"`
 	Mod   string `json:"mod"`
 }
+type c17Fault struct {
+	Op string `json:"op"` // none | list | create | delete | summary
+	K  int    `json:"k"`  // the k-th call of that kind in the run fails
+}
 type c17Run struct {
 	Reports []string `json:"reports"`
 	Var     c17Var   `json:"var"`
+	Fault   c17Fault `json:"fault"`
 }
 type c17Case struct {
 	Plat  string    `json:"plat"`
@@ -61,12 +69,16 @@ type c17Case struct {
 var c17Summary = map[string]string{
 	"S1": "redundant regexp", "S2": "redundant regexp anchors", "S3": "template uses non-existent label",
 	"S5": "use humanize filters for the results", "S6": "use humanize filters for the results",
+	"S7": "rule results used by another rule",
 }
 
 // P5 and P6 have the same summary; their comments differ in the annotation line they quote
 var c17Quote = map[string]string{"S5": "rate is {{ $value }}", "S6": "it is {{ $value }}"}
-var c17ProbSum = map[string]string{"P1": "S1", "P2": "S2", "P3": "S3", "P4": "S2", "P5": "S5", "P6": "S6"}
-var c17ProbFile = map[string]string{"P1": "F1", "P2": "F1", "P3": "F1", "P4": "F2", "P5": "F1", "P6": "F1"}
+var c17ProbSum = map[string]string{"P1": "S1", "P2": "S2", "P3": "S3", "P4": "S2", "P5": "S5", "P6": "S6", "P7": "S7"}
+var c17ProbFile = map[string]string{"P1": "F1", "P2": "F1", "P3": "F1", "P4": "F2", "P5": "F1", "P6": "F1", "P7": "F2"}
+
+// P7: the pull request removes this recording rule (lines 8-9 of the old rules2.yml) while alert B2 still uses it
+var c17Removed = []string{"  - record: job:up:count", "    expr: count(up) by(job)"}
 var c17FileName = map[string]string{"F1": "rules1.yml", "F2": "rules2.yml"}
 
 func c17Pick(on bool, a, b string) string {
@@ -98,6 +110,10 @@ func c17Render(file string, on map[string]bool, shift int) string {
 			"groups:", "- name: g2", "  rules:", "  - alert: B1",
 			"    expr: up{"+c17Pick(on["P4"], `job=~"^baz$"`, `job="baz"`)+"} == 0",
 			"    annotations:", "      summary: y")
+		if on["__old"] {
+			l = append(l, c17Removed...)
+		}
+		l = append(l, "  - alert: B2", "    expr: job:up:count == 0", "    annotations:", "      summary: z")
 	}
 	return strings.Join(l, "\n") + "\n"
 }
@@ -105,7 +121,7 @@ func c17Render(file string, on map[string]bool, shift int) string {
 // summaries a comment body spells out (a projection: whole lines only)
 func c17Carries(text string) []string {
 	out := []string{}
-	for _, code := range []string{"S1", "S2", "S3"} {
+	for _, code := range []string{"S1", "S2", "S3", "S7"} {
 		s := c17Summary[code]
 		for _, ln := range strings.Split(text, "\n") {
 			if ln == s || ln == "<summary>"+s+"</summary>" {
@@ -131,6 +147,8 @@ type c17Lint struct {
 	mod     map[string][]int // F1/F2 -> modified lines used for the diff shown by the platform
 	total   map[string]int
 	extra   []string // reports outside the universe (must stay empty)
+	// lines the pull request removed from rules2.yml: removedN lines in front of new line removedAt
+	removedAt, removedN int
 }
 
 func c17DoLint(dir string, on map[string]bool, v c17Var) (c17Lint, error) {
@@ -145,10 +163,38 @@ func c17DoLint(dir string, on map[string]bool, v c17Var) (c17Lint, error) {
 		files[c17FileName[f]] = []byte(txt)
 		out.total[f] = strings.Count(txt, "\n")
 	}
-	res := pipe.Lint(dir, files, []string{"rules1.yml", "rules2.yml"},
-		pipe.Opts{Strict: true, Offline: true, Command: "ci", State: "modified"})
+	opts := pipe.Opts{Strict: true, Offline: true, Command: "ci", State: "modified"}
+	var removed []discovery.Entry
+	if on["P7"] {
+		// the old revision of rules2.yml still has the recording rule: its entry, marked Removed, is what
+		// `pint ci` adds to the entries of the new revision (discovery.GitBranchFinder)
+		oldOn := map[string]bool{"__old": true, "P4": on["P4"]}
+		old := pipe.Lint(dir, map[string][]byte{"rules2.yml": []byte(c17Render("F2", oldOn, 0))}, []string{"rules2.yml"}, opts)
+		for _, e := range old.RawEntries {
+			if e.Rule.RecordingRule != nil {
+				e.State = discovery.Removed
+				removed = append(removed, e)
+			}
+		}
+		if len(removed) != 1 {
+			return out, fmt.Errorf("old revision: %d recording rules (panic=%q find=%q)", len(removed), old.Panic, old.FindErr)
+		}
+	}
+	res := pipe.Lint(dir, files, []string{"rules1.yml", "rules2.yml"}, opts)
 	if res.Panic != "" || res.FindErr != "" || res.CfgErr != "" {
 		return out, fmt.Errorf("pipeline: panic=%q find=%q cfg=%q", res.Panic, res.FindErr, res.CfgErr)
+	}
+	if len(removed) > 0 {
+		cfg, err := pipe.LoadConfig(dir, "")
+		if err != nil {
+			return out, err
+		}
+		cfg.DisableOnlineChecks()
+		res = pipe.RunChecks(cfg, append(res.RawEntries, removed...), opts, dir)
+		if res.Panic != "" || res.CfgErr != "" {
+			return out, fmt.Errorf("pipeline with removed rule: panic=%q cfg=%q", res.Panic, res.CfgErr)
+		}
+		out.removedAt, out.removedN = 8, len(c17Removed)
 	}
 	fileOf := func(p string) string {
 		if filepath.Base(p) == "rules1.yml" {
@@ -158,6 +204,9 @@ func c17DoLint(dir string, on map[string]bool, v c17Var) (c17Lint, error) {
 	}
 	seen := map[string]map[int]bool{"F1": {}, "F2": {}}
 	for _, e := range res.RawEntries {
+		if e.State == discovery.Removed {
+			continue
+		}
 		f := fileOf(e.Path.Name)
 		for _, l := range e.ModifiedLines {
 			if !seen[f][l] {
@@ -200,7 +249,14 @@ func c17DoLint(dir string, on map[string]bool, v c17Var) (c17Lint, error) {
 	return out, nil
 }
 
-func c17Patch(total int, mod []int) string {
+func (lr c17Lint) patch(f string) string {
+	if f == "F2" {
+		return c17Patch(lr.total[f], lr.mod[f], lr.removedAt, lr.removedN)
+	}
+	return c17Patch(lr.total[f], lr.mod[f], 0, 0)
+}
+
+func c17Patch(total int, mod []int, removedAt, removedN int) string {
 	m := map[int]bool{}
 	for _, l := range mod {
 		m[l] = true
@@ -208,6 +264,11 @@ func c17Patch(total int, mod []int) string {
 	var b strings.Builder
 	fmt.Fprintf(&b, "@@ -1,%d +1,%d @@\n", total, total)
 	for i := 1; i <= total; i++ {
+		if i == removedAt {
+			for k := 0; k < removedN; k++ {
+				b.WriteString("-removed\n")
+			}
+		}
 		if m[i] {
 			b.WriteString("+line\n")
 		} else {
@@ -247,13 +308,26 @@ type c17Mem struct {
 	creates []c17Comment
 	deleted []int
 	isEqual int
+	fault   c17Fault
+	nCreate int // Create / Delete calls of this run
+	nDelete int
+	hit     bool
+	nerrs   int
 }
+
+var errC17Injected = errors.New("injected platform failure")
 
 func (m *c17Mem) Describe() string { return "verif-" + m.plat }
 func (m *c17Mem) Destinations(context.Context) ([]any, error) {
 	return []any{m.dst}, nil
 }
 func (m *c17Mem) Summary(_ context.Context, _ any, _ reporter.Summary, errs []error) error {
+	m.nerrs = len(errs)
+	if m.fault.Op == "summary" {
+		m.hit = true
+		m.calls = append(m.calls, c17Call{"summary", len(errs), 2})
+		return errC17Injected
+	}
 	m.calls = append(m.calls, c17Call{"summary", len(errs), 0})
 	return nil
 }
@@ -267,6 +341,11 @@ func (m *c17Mem) posBefore(id int) int {
 }
 func (m *c17Mem) List(context.Context, any) ([]reporter.ExistingComment, error) {
 	m.before = append([]c17Comment{}, m.store...)
+	if m.fault.Op == "list" {
+		m.hit = true
+		m.calls = append(m.calls, c17Call{"list", 0, 2})
+		return nil, errC17Injected
+	}
 	out := []reporter.ExistingComment{}
 	for k, c := range m.store {
 		if m.plat == "gitlab" && !c.Mine {
@@ -288,6 +367,12 @@ func (m *c17Mem) Create(_ context.Context, dst any, p reporter.PendingComment) e
 			break
 		}
 	}
+	m.nCreate++
+	if m.fault.Op == "create" && m.fault.K == m.nCreate {
+		m.hit = true
+		m.calls = append(m.calls, c17Call{"create", k, 2})
+		return errC17Injected
+	}
 	m.calls = append(m.calls, c17Call{"create", k, 0})
 	if m.plat == "github" {
 		_, line = reporter.VerifGithubFixCommentLine(m.gh, dst, p) // what GithubReporter.Create sends
@@ -305,6 +390,12 @@ func (m *c17Mem) Delete(_ context.Context, _ any, e reporter.ExistingComment) er
 	meta, _, _, _ := reporter.VerifExistingFields(e)
 	id, _ := meta.(int)
 	pos := m.posBefore(id)
+	m.nDelete++
+	if m.fault.Op == "delete" && m.fault.K == m.nDelete {
+		m.hit = true
+		m.calls = append(m.calls, c17Call{"delete", pos, 2})
+		return errC17Injected
+	}
 	m.calls = append(m.calls, c17Call{"delete", pos, 0})
 	for k, c := range m.store {
 		if c.ID == id {
@@ -390,6 +481,27 @@ func (in *c17Interner) comments(cs []c17Comment) []c17RecComment {
 	return out
 }
 
+type c17PendRec struct {
+	Path    string   `json:"path"`
+	Line    int      `json:"line"`
+	Tid     int      `json:"tid"`
+	Carries []string `json:"carries"`
+	Anchor  string   `json:"anchor"`
+}
+
+func c17PendRecs(in *c17Interner, pending []reporter.PendingComment) []c17PendRec {
+	pend := []c17PendRec{}
+	for _, p := range pending {
+		path, text, line, anchor := reporter.VerifPendingFields(p)
+		a := "after"
+		if anchor == checks.AnchorBefore {
+			a = "before"
+		}
+		pend = append(pend, c17PendRec{c17AbsPath(path), line, in.id(text), c17Carries(text), a})
+	}
+	return pend
+}
+
 // real text of the comment the abstract seed text stands for
 var c17TextCache sync.Map
 
@@ -398,6 +510,9 @@ func c17SeedText(dir string, t c17Text) (string, error) {
 		return "a comment written by an older pint version about a problem that is gone\n", nil
 	}
 	key := fmt.Sprintf("%v/%d", t.M, t.S)
+	if strings.Contains(key, "P7") {
+		key = dir + key // the details of rule/dependency name the path of the dependent rule
+	}
 	if v, ok := c17TextCache.Load(key); ok {
 		return v.(string), nil
 	}
@@ -500,7 +615,7 @@ func c17RunCase(id int, cs c17Case, emit func(any)) error {
 		for _, f := range []string{"F1", "F2"} {
 			files = append(files, &github.CommitFile{
 				Filename: github.Ptr(filepath.Join(dir, c17FileName[f])),
-				Patch:    github.Ptr(c17Patch(lr.total[f], lr.mod[f])),
+				Patch:    github.Ptr(lr.patch(f)),
 			})
 		}
 		m.dst = "gitlab-mr"
@@ -509,27 +624,21 @@ func c17RunCase(id int, cs c17Case, emit func(any)) error {
 		}
 		m.pending = reporter.VerifMakeComments(lr.summary, cs.Showdup)
 		m.usedP = map[int]bool{}
-		m.before, m.listed, m.calls, m.creates, m.deleted, m.isEqual = nil, []int{}, []c17Call{}, nil, []int{}, 0
+		m.before, m.listed, m.calls, m.creates, m.deleted, m.isEqual = append([]c17Comment{}, m.store...), []int{}, []c17Call{}, nil, []int{}, 0
+		m.fault, m.nCreate, m.nDelete, m.hit, m.nerrs = run.Fault, 0, 0, false, 0
+		if m.fault.Op == "" {
+			m.fault.Op = "none"
+		}
 		errStr := ""
 		if err := reporter.Submit(context.Background(), lr.summary, m, cs.Showdup); err != nil {
 			errStr = err.Error()
 		}
-		type pendRec struct {
-			Path    string   `json:"path"`
-			Line    int      `json:"line"`
-			Tid     int      `json:"tid"`
-			Carries []string `json:"carries"`
-		}
-		pend := []pendRec{}
-		for _, p := range m.pending {
-			path, text, line, _ := reporter.VerifPendingFields(p)
-			pend = append(pend, pendRec{c17AbsPath(path), line, in.id(text), c17Carries(text)})
-		}
+		pend := c17PendRecs(in, m.pending)
 		reps := append([]string{}, run.Reports...)
 		emit(map[string]any{"ev": "Run", "id": id, "run": rn + 1, "reports": reps, "shift": run.Var.Shift, "mod": run.Var.Mod,
 			"pending": pend, "before": in.comments(m.before), "listed": m.listed, "calls": m.calls, "callsobs": true,
 			"creates": in.comments(m.creates), "deleted": m.deleted, "after": in.comments(m.store),
-			"isequal": m.isEqual, "err": errStr})
+			"isequal": m.isEqual, "err": errStr, "fault": m.fault, "hit": m.hit, "nerrs": m.nerrs})
 	}
 	return nil
 }
